@@ -299,3 +299,35 @@ func (c *Cluster) CheckReplicas(limit int) (queries int, err error) {
 	}
 	return queries, nil
 }
+
+// CrashAll SIGKILLs the process holding every replica (the whole cluster
+// loses power at once, page cache intact) and reopens all nodes that were
+// live on their directories in a new child.
+func (c *Cluster) CrashAll() error {
+	var names []string
+	for nm := range c.Live {
+		names = append(names, nm)
+	}
+	sort.Strings(names)
+	c.X.Kill()
+	x, err := StartExec("nodeexec")
+	if err != nil {
+		return err
+	}
+	c.X = x
+	c.Live = map[string]*Node{}
+	for _, nm := range names {
+		o := c.Opts
+		o.Dir = fmt.Sprintf("%s/%s", c.Dir, nm)
+		o.ID = nm
+		o.Addr = c.Addr[nm]
+		o.Bootstrap = false
+		n, err := OpenNode(x, nm, o)
+		if err != nil {
+			return fmt.Errorf("reopening %s after the crash: %v", nm, err)
+		}
+		c.Live[nm] = n
+	}
+	_, err = c.Leader("", 30*time.Second)
+	return err
+}
